@@ -295,3 +295,52 @@ def mixed_chain(seed, name="mixed", blocks=14, users=6, sched=None, unrated_p=0.
     s.grade(h)
     s.tip(h)
     return s
+
+
+# All eras in ~45 blocks (snapshots, being tied to multiples of 144, are covered by the live-era chains)
+LEG = {"Pegnet": 0, "GradingV2": 3, "TxConv": 5, "PEGPricing": 7, "OneWaypFCT": 9, "ConvLimit": 12, "PEGFloat": 12,
+       "V4": 16, "RCDe": 16, "V20": 22, "DevRewards": 26, "SprSig": 26, "V202": 30, "OneWaySmall": 30,
+       "V204": 34, "V204Burn": 37, "PIP10": 40}
+
+
+def legacy_chain(seed, name="legacy", tip=44, peg_requests=True):
+    """A chain through every era: FCT burns, V1..V5 OPRs, PEG priced 0 / by equation / floating,
+    one-way pFCT, the PEG conversion bank (per height before V4, pooled with bank rows from V4),
+    then 2.0 with SPRs, developer zeroing, 2.0.2, mint, mint burn, PIP-10."""
+    rnd = random.Random(seed * 15485863 + 3)
+    s = Scn(name, sched=LEG, seed=seed, avg=4)
+    users = [s.key("A%d" % i, "ed") for i in range(1, 6)] + [s.key("E1", "rcde")]
+    fund = rnd.choice([50, 200, 1000]) * 10**8
+    for h in range(1, tip + 1):
+        v20 = h >= LEG["V20"]
+        n = 10 if h < LEG["GradingV2"] else 25
+        rates = {"PEG": RATES["PEG"] + (h % 5) * 10**4, "pXBT": RATES["pXBT"] + (h % 7) * 10**9}
+        if rnd.random() < 0.85 or h in (1, 2, 5, 12, 16, 22, 26, 30):
+            s.grade(h, rates=rates, n=n, spr=v20 and h >= LEG["V20"] + 2)
+        if h < LEG["V20"]:
+            for u in users[:5]:
+                if rnd.random() < 0.4 or h <= 3:
+                    s.burn(h, u, rnd.choice([fund, fund // 3, 12345]))
+            if rnd.random() < 0.3:
+                s.burn(h, users[0], 777, shape=rnd.choice(["hasFctOut", "ecAmt", "twoInputs", "wrongEc", "noEc", "twoEc"]))
+        if h >= LEG["TxConv"]:
+            for u in users:
+                if u == "E1" and h <= LEG["RCDe"]:
+                    continue
+                r = rnd.random()
+                if r < 0.35:
+                    t = rnd.choice(["pFCT", "pUSD", "pXBT", "PEG"])
+                    b = s.B(u, t)
+                    if b > 0:
+                        s.transfer(h, u, t, [(rnd.choice(users), max(1, b // rnd.choice([2, 3, 10])))])
+                elif r < 0.7:
+                    t = rnd.choice(["pFCT", "pUSD", "pXBT", "PEG"])
+                    d = rnd.choice([x for x in ["pUSD", "pXBT", "pFCT", "PEG"] if x != t])
+                    if d == "PEG" and not peg_requests:
+                        d = "pUSD" if t != "pUSD" else "pXBT"
+                    b = s.B(u, t)
+                    if b > 0:
+                        ok = not (d == "pFCT" and h >= LEG["OneWaypFCT"]) and d != "PEG"
+                        s.convert(h, u, t, max(1, b // rnd.choice([2, 4, 9])), d, track=ok)
+    s.tip(tip)
+    return s
